@@ -52,95 +52,133 @@ func skipWhiteSpace(buf []byte, cursor int64) int64 {
 	return cursor
 }
 
+// skipObject skips ( and validates ) the rest of an object; cursor is just
+// behind the opening brace.
 func skipObject(buf []byte, cursor, depth int64) (int64, error) {
-	braceCount := 1
+	if depth > maxDecodeNestingDepth {
+		return 0, errors.ErrExceededMaxDepth(buf[cursor], cursor)
+	}
+	cursor = skipWhiteSpace(buf, cursor)
+	if buf[cursor] == '}' {
+		return cursor + 1, nil
+	}
 	for {
+		cursor = skipWhiteSpace(buf, cursor)
+		if buf[cursor] != '"' {
+			if buf[cursor] == nul {
+				return 0, errors.ErrUnexpectedEndOfJSON("object of object", cursor)
+			}
+			return 0, errors.ErrInvalidCharacter(buf[cursor], "object key", cursor)
+		}
+		c, err := skipString(buf, cursor)
+		if err != nil {
+			return 0, err
+		}
+		cursor = skipWhiteSpace(buf, c)
+		if buf[cursor] != ':' {
+			return 0, errors.ErrExpected("colon after object key", cursor)
+		}
+		c, err = skipValue(buf, cursor+1, depth)
+		if err != nil {
+			return 0, err
+		}
+		cursor = skipWhiteSpace(buf, c)
 		switch buf[cursor] {
-		case '{':
-			braceCount++
-			depth++
-			if depth > maxDecodeNestingDepth {
-				return 0, errors.ErrExceededMaxDepth(buf[cursor], cursor)
-			}
 		case '}':
-			depth--
-			braceCount--
-			if braceCount == 0 {
-				return cursor + 1, nil
-			}
-		case '[':
-			depth++
-			if depth > maxDecodeNestingDepth {
-				return 0, errors.ErrExceededMaxDepth(buf[cursor], cursor)
-			}
-		case ']':
-			depth--
-		case '"':
-			for {
-				cursor++
-				switch buf[cursor] {
-				case '\\':
-					cursor++
-					if buf[cursor] == nul {
-						return 0, errors.ErrUnexpectedEndOfJSON("string of object", cursor)
-					}
-				case '"':
-					goto SWITCH_OUT
-				case nul:
-					return 0, errors.ErrUnexpectedEndOfJSON("string of object", cursor)
-				}
-			}
+			return cursor + 1, nil
+		case ',':
+			cursor++
 		case nul:
 			return 0, errors.ErrUnexpectedEndOfJSON("object of object", cursor)
+		default:
+			return 0, errors.ErrExpected("comma after object element", cursor)
 		}
-	SWITCH_OUT:
-		cursor++
 	}
 }
 
+// skipObjectRest skips ( and validates ) the remaining members of an object;
+// cursor is behind a member value.
+func skipObjectRest(buf []byte, cursor, depth int64) (int64, error) {
+	cursor = skipWhiteSpace(buf, cursor)
+	switch buf[cursor] {
+	case '}':
+		return cursor + 1, nil
+	case ',':
+		cursor = skipWhiteSpace(buf, cursor+1)
+		if buf[cursor] == '}' {
+			return 0, errors.ErrInvalidCharacter(buf[cursor], "object key", cursor)
+		}
+		return skipObject(buf, cursor, depth)
+	case nul:
+		return 0, errors.ErrUnexpectedEndOfJSON("object of object", cursor)
+	}
+	return 0, errors.ErrExpected("comma after object element", cursor)
+}
+
+// skipArray skips ( and validates ) the rest of an array; cursor is just
+// behind the opening bracket.
 func skipArray(buf []byte, cursor, depth int64) (int64, error) {
-	bracketCount := 1
+	if depth > maxDecodeNestingDepth {
+		return 0, errors.ErrExceededMaxDepth(buf[cursor], cursor)
+	}
+	cursor = skipWhiteSpace(buf, cursor)
+	if buf[cursor] == ']' {
+		return cursor + 1, nil
+	}
 	for {
+		c, err := skipValue(buf, cursor, depth)
+		if err != nil {
+			return 0, err
+		}
+		cursor = skipWhiteSpace(buf, c)
 		switch buf[cursor] {
-		case '[':
-			bracketCount++
-			depth++
-			if depth > maxDecodeNestingDepth {
-				return 0, errors.ErrExceededMaxDepth(buf[cursor], cursor)
-			}
 		case ']':
-			bracketCount--
-			depth--
-			if bracketCount == 0 {
-				return cursor + 1, nil
-			}
-		case '{':
-			depth++
-			if depth > maxDecodeNestingDepth {
-				return 0, errors.ErrExceededMaxDepth(buf[cursor], cursor)
-			}
-		case '}':
-			depth--
-		case '"':
-			for {
-				cursor++
-				switch buf[cursor] {
-				case '\\':
-					cursor++
-					if buf[cursor] == nul {
-						return 0, errors.ErrUnexpectedEndOfJSON("string of object", cursor)
-					}
-				case '"':
-					goto SWITCH_OUT
-				case nul:
-					return 0, errors.ErrUnexpectedEndOfJSON("string of object", cursor)
-				}
-			}
+			return cursor + 1, nil
+		case ',':
+			cursor++
 		case nul:
 			return 0, errors.ErrUnexpectedEndOfJSON("array of object", cursor)
+		default:
+			return 0, errors.ErrExpected("comma after array element", cursor)
 		}
-	SWITCH_OUT:
+	}
+}
+
+// skipString skips ( and validates ) a string literal; cursor is at the
+// opening quote.
+func skipString(buf []byte, cursor int64) (int64, error) {
+	for {
 		cursor++
+		switch c := buf[cursor]; c {
+		case '\\':
+			cursor++
+			switch buf[cursor] {
+			case '"', '\\', '/', 'b', 'f', 'n', 'r', 't':
+			case 'u':
+				for i := 0; i < 4; i++ {
+					cursor++
+					h := buf[cursor]
+					if !(('0' <= h && h <= '9') || ('a' <= h && h <= 'f') || ('A' <= h && h <= 'F')) {
+						if h == nul {
+							return 0, errors.ErrUnexpectedEndOfJSON("string of object", cursor)
+						}
+						return 0, errors.ErrInvalidCharacter(h, "\\u hexadecimal character escape", cursor)
+					}
+				}
+			case nul:
+				return 0, errors.ErrUnexpectedEndOfJSON("string of object", cursor)
+			default:
+				return 0, errors.ErrInvalidCharacter(buf[cursor], "string escape code", cursor)
+			}
+		case '"':
+			return cursor + 1, nil
+		case nul:
+			return 0, errors.ErrUnexpectedEndOfJSON("string of object", cursor)
+		default:
+			if c < 0x20 {
+				return 0, errors.ErrInvalidCharacter(c, "string literal", cursor)
+			}
+		}
 	}
 }
 
@@ -155,27 +193,18 @@ func skipValue(buf []byte, cursor, depth int64) (int64, error) {
 		case '[':
 			return skipArray(buf, cursor+1, depth+1)
 		case '"':
-			for {
-				cursor++
-				switch buf[cursor] {
-				case '\\':
-					cursor++
-					if buf[cursor] == nul {
-						return 0, errors.ErrUnexpectedEndOfJSON("string of object", cursor)
-					}
-				case '"':
-					return cursor + 1, nil
-				case nul:
-					return 0, errors.ErrUnexpectedEndOfJSON("string of object", cursor)
-				}
-			}
+			return skipString(buf, cursor)
 		case '-', '0', '1', '2', '3', '4', '5', '6', '7', '8', '9':
+			start := cursor
 			for {
 				cursor++
 				if floatTable[buf[cursor]] {
 					continue
 				}
 				break
+			}
+			if !validNumber(buf[start:cursor]) {
+				return 0, errors.ErrSyntax(invalidNumberError(string(buf[start:cursor])), start)
 			}
 			return cursor, nil
 		case 't':
